@@ -467,13 +467,23 @@ func toIn(op *Op, tbl map[int]string, lim *Limits) *In {
 	}
 	name := func(n string) string {
 		if strings.HasPrefix(n, "#namemax") {
+			// "#namemax<+d>" or "#namemax<+d>:<tag>": a name of length name_max+d (starting with tag)
 			var d int
-			fmt.Sscanf(n[len("#namemax"):], "%d", &d)
+			rest := n[len("#namemax"):]
+			tag := ""
+			if i := strings.Index(rest, ":"); i >= 0 {
+				tag = rest[i+1:]
+				rest = rest[:i]
+			}
+			fmt.Sscanf(rest, "%d", &d)
 			l := int(lim.NameMax) + d
 			if l < 0 {
 				l = 0
 			}
-			return strings.Repeat("L", l)
+			if len(tag) > l {
+				tag = tag[:l]
+			}
+			return tag + strings.Repeat("L", l-len(tag))
 		}
 		return n
 	}
@@ -670,8 +680,12 @@ func (g *seqGen) advOp() *Op {
 		op.Len = advCnt[r.Intn(len(advCnt))]
 	case "readdir", "readdirplus":
 		op.Off = advU64[r.Intn(len(advU64))]
-		if r.Chance(0.5) {
+		switch r.Intn(4) {
+		case 0:
 			op.Off = uint64(r.Intn(5000)) // misaligned / never issued
+		case 1:
+			// aligned to the entry size: inside, at and beyond the end of the directory, and at the top of the range
+			op.Off = []uint64{128, 256, 384, 512, 4096, 4096 + 128, 1 << 20, 1 << 32, 1 << 63, 1<<64 - 128, 1<<64 - 256, 1<<64 - 384, 1<<64 - 4096}[r.Intn(13)]
 		}
 		op.X = 7
 		op.Len = advCnt[r.Intn(len(advCnt))]
